@@ -325,6 +325,168 @@ def scenario(kind, cls, refset, nwriters, order, prelude='plain'):
     return tuple(outcomes), [(c, s, det) for c, s, det in viol]
 
 
+def undo_scenario(kind, cls, refset, shape):
+    """The undo path: transactional undo of a change that has been followed
+    by another change must store exactly the class's merge, or refuse and
+    store nothing.  shape: 'single' (one undo), 'multi' / 'multi-rev' (two
+    undos of consecutive changes to the same object in ONE transaction, in
+    either order: the second merges with the still uncommitted result of
+    the first)."""
+    from base64 import encodebytes
+    env.reset_globals()
+    del hclasses.CR_LOG[:]
+    viol = []
+    d = env.new_dir('cr')
+    UE = env.mod('ZODB.POSException').UndoError
+    wit = dict(kind=kind, cls=cls, refs=list(refset), undo=shape)
+
+    def bad(c, s, det):
+        viol.append((c, 'undo-%s:%s:%s' % (shape, s, cls), det))
+    db = other = None
+    out = 'error'
+    try:
+        db, other = mkdbs(kind, d)
+        if cls == 'X':
+            for st in (db.storage, getattr(db.storage, 'changes', None)):
+                if st is None:
+                    continue
+
+                def hidden(*a, _orig=st.tryToResolveConflict, **k):
+                    sys.modules.pop('mc_transient_x', None)
+                    env.mod('ZODB.ConflictResolution')._class_cache.clear()
+                    try:
+                        return _orig(*a, **k)
+                    finally:
+                        x_class()
+                st.tryToResolveConflict = hidden
+        tm0 = transaction.TransactionManager()
+        c0 = db.open(tm0)
+        o = make_obj(cls)
+        c0.root()['o'] = o
+        add_refs(c0, o, refset)
+        env.CLOCK.now += 1
+        tm0.commit()
+        want_refs = [ref_view(x) for x in c0.root()['o'].refs]
+        values = [7, 17] if shape == 'single' else [7, 17, 117]
+        tids = []
+        for v in values:
+            o.v = v
+            env.CLOCK.now += 1
+            tm0.commit()
+            tids.append(db.storage.lastTransaction())
+        c0.close()
+        last = db.storage.lastTransaction()
+        ident = [encodebytes(t).rstrip() for t in tids]
+        if shape == 'single':
+            ids = [ident[0]]
+            calls = [(7, 17, 0)]
+            merged = 10
+        elif shape == 'multi':
+            ids = [ident[1], ident[0]]
+            calls = [(17, 117, 7), (7, 107, 0)]
+            merged = 100
+        else:
+            ids = [ident[0], ident[1]]
+            calls = [(7, 117, 0), (17, 110, 7)]
+            merged = 100
+        tmu = transaction.TransactionManager()
+        env.CLOCK.now += 1
+        try:
+            if len(ids) == 1:
+                db.undo(ids[0], tmu.get())
+            else:
+                db.undoMultiple(ids, tmu.get())
+            tmu.commit()
+            out = 'ok'
+        except UE:
+            tmu.abort()
+            out = 'refused'
+        except Exception as e:      # noqa: B902
+            tmu.abort()
+            out = 'error:' + type(e).__name__
+        resolvable = cls == 'CR-merge'
+        if resolvable:
+            expect_v = merged
+            if out != 'ok':
+                bad('stored', 'mergeable-undo-%s' % out.split(':')[0],
+                    dict(wit, outcome=out))
+            else:
+                got = [(a[0], b[0], c[0]) for a, b, c in hclasses.CR_LOG]
+                if got != calls:
+                    bad('args', 'values', dict(wit, expected=calls, got=got))
+                exp_sem = tuple((r[1], None if r[2] == 'main' else r[2],
+                                 r[0] == 'weak') for r in want_refs)
+                for trip in hclasses.CR_LOG:
+                    for nm, st in zip(('old', 'committed', 'new'), trip):
+                        if st[1] != exp_sem:
+                            bad('args', 'references-%s' % nm, dict(
+                                wit, expected=exp_sem, got=st[1]))
+        else:
+            expect_v = values[-1]
+            if out != 'refused':
+                bad('fail', 'unresolvable-undo-%s' % out.split(':')[0],
+                    dict(wit, outcome=out))
+            elif db.storage.lastTransaction() != last:
+                bad('fail', 'refused-undo-stored-something', dict(wit))
+        if out in ('ok', 'refused'):
+            tmf = transaction.TransactionManager()
+            cf = db.open(tmf)
+            try:
+                fo = cf.root()['o']
+                r = call(lambda: fo.v)
+                if r != expect_v:
+                    bad('stored' if resolvable else 'fail', 'value', dict(
+                        wit, expected=expect_v, got=repr(r)))
+                got_refs = call(lambda: [ref_view(x) for x in fo.refs])
+                if got_refs != want_refs:
+                    bad('stored', 'references', dict(
+                        wit, expected=want_refs, got=repr(got_refs)[:300]))
+            finally:
+                tmf.abort()
+                cf.close()
+    except Exception as e:      # noqa: B902
+        import traceback
+        bad('error', 'scenario:%s' % type(e).__name__,
+            dict(wit, error=repr(e)[:300],
+                 where=traceback.format_exc()[-400:]))
+        out = 'error'
+    finally:
+        try:
+            db.close()
+            other.close()
+        except Exception:
+            pass
+        env.rm_dir(d)
+    return (out,), viol
+
+
+UNDO_SHAPES = ('single', 'multi', 'multi-rev')
+
+
+def undo_task(kind, cls):
+    env.install()
+    res = schedx._new_res()
+    seen = set()
+    for refset in REFSETS:
+        for shape in UNDO_SHAPES:
+            out, viol = undo_scenario(kind, cls, refset, shape)
+            res['cov']['traces_validated_against_impl'] += 1
+            res['cov']['states'] += 1
+            res['cov']['transitions'] += 5
+            res['cov']['evaluations'] += 1
+            res['cov']['distinct_nontrivial'] += 1
+            key = 'undo-%s:%s:%s' % (shape, cls, '/'.join(out))
+            res['outcomes'][key] = res['outcomes'].get(key, 0) + 1
+            for c, s, d in viol:
+                fs = 'C10.%s:%s:%s' % (c, kind, s)
+                if fs not in seen:
+                    seen.add(fs)
+                    res['violations'].append(('C10.' + c, fs, d, d, 1))
+    if not res['samples']:
+        res['samples'].append(dict(kind=kind, cls=cls, undo=True))
+    return res
+
+
 PRELUDES = (('F', 'undo-base'), ('F', 'undo-committed'),
             ('DMF', 'undo-base'), ('DMF', 'undo-committed'),
             ('DFM', 'undo-base'))
@@ -356,11 +518,11 @@ def sequence_same_class(kind):
     return outs, viol
 
 
-def task(kind, cls, refset, prelude='plain'):
+def task(kind, cls, refset, prelude='plain', maxw=3):
     env.install()
     res = schedx._new_res()
     seen = set()
-    for nwriters in (2, 3):
+    for nwriters in range(2, maxw + 1):
         for order in itertools.permutations(range(nwriters)):
             out, viol = scenario(kind, cls, refset, nwriters, order, prelude)
             res['cov']['traces_validated_against_impl'] += 1
@@ -407,36 +569,49 @@ def run(rep, tier, seed, workers):
         'raises ConflictError / raises AttributeError / wrong arity; no '
         'resolver; class not importable at resolution time} x reference set '
         '{none, ordinary, bare-oid, weak, cross-database, weak '
-        'cross-database, all four} x {2, 3} stale writers x every commit '
+        'cross-database, all four} x 2..3 (thorough: 2..5) stale writers x '
+        'every commit '
         'order; the same with the base revision, or the revision committed '
         'under the writers, written by a transactional undo (a record '
         'without its own pickle) on FileStorage, DemoStorage(Mapping/File) '
-        'and in the FileStorage base of a DemoStorage; plus '
+        'and in the FileStorage base of a DemoStorage; the undo path '
+        '(undo of a change followed by another change; two such undos in '
+        'one transaction in both orders) for every class kind and '
+        'reference set on FileStorage and DemoStorage(Mapping/File); plus '
         'failing-then-mergeable conflict sequences on one class '
         'within one process; non-trivial = scenario with at least one stale '
         'writer')
     tasks = []
+    maxw = 3 if tier == 'quick' else 5
+    rep.bounds['stale writers'] = maxw
     for kind in KINDS:
         for cls in CLASSES:
             refsets = REFSETS if (True or cls in (
                 'CR-merge', 'P')) else REFSETS[:1] + REFSETS[-1:]
             for rs in refsets:
-                tasks.append((MOD, 'task', (kind, cls, rs)))
+                tasks.append((MOD, 'task', (kind, cls, rs, 'plain', maxw)))
         tasks.append((MOD, 'seq_task', (kind,)))
+    for kind in ('F', 'DMF'):
+        for cls in CLASSES:
+            tasks.append((MOD, 'undo_task', (kind, cls)))
     for kind, prelude in PRELUDES:
         for cls in CLASSES:
             for rs in PRELUDE_REFSETS:
-                tasks.append((MOD, 'task', (kind, cls, rs, prelude)))
+                tasks.append((MOD, 'task', (kind, cls, rs, prelude, maxw)))
     par.run_tasks(tasks, workers, rep, seed)
     rep.bounds['scenario families'] = len(tasks)
     rep.assumptions = [
         'MappingStorage offers no conflict resolution and is not part of '
-        'this check; the undo merge path is checked by C06']
+        'this check; longer undo histories are explored by C06']
 
 
 def replay(w):
     wit = w['witness']
-    if 'sequence' in wit:
+    if 'undo' in wit:
+        out, viol = undo_scenario(wit['kind'], wit['cls'],
+                                  tuple(wit['refs']), wit['undo'])
+        kind = wit['kind']
+    elif 'sequence' in wit:
         outs, viol = sequence_same_class(wit['sequence'])
         kind = wit['sequence']
     else:
